@@ -24,6 +24,7 @@ type verifC02Req struct {
 	BodyLen int         `json:"body_len"`
 	Chunked bool        `json:"chunked"`
 	Expect  bool        `json:"expect_continue"`
+	SlowMs  int         `json:"slow_ms,omitempty"` // the client pauses this long in the middle of sending
 }
 
 type verifC02Seen struct {
@@ -143,6 +144,10 @@ func TestVerifC02(t *testing.T) {
 			c.Chunked = rng.intn(3) == 0
 			c.Expect = rng.intn(10) == 0 && c.BodyLen > 0
 		}
+		if i == 2 {
+			// an upload that takes longer than any plausible read deadline on the way: 64 KiB with an 11 s pause in the middle
+			c.Method, hasBody, c.BodyLen, c.Chunked, c.Expect, c.SlowMs = "POST", true, 65536, false, false, 11000
+		}
 		if hasBody && i%4 == 1 {
 			// body types that net/http's form parsing would consume if anybody on the way asked for a form value
 			c.Fields = append(c.Fields, [2]string{"Content-Type", []string{"application/x-www-form-urlencoded", "multipart/form-data; boundary=verifboundary", "application/x-www-form-urlencoded; charset=UTF-8", "application/json"}[(i/4)%4]})
@@ -189,7 +194,7 @@ func TestVerifC02(t *testing.T) {
 		go func(i int, c verifC02Req) {
 			defer wg.Done()
 			defer func() { <-sem }()
-			results[i] = verifRawRoundTrip(px.addr, raws[c.Case], c.Method, 60*time.Second)
+			results[i] = verifRawRoundTripPaused(px.addr, raws[c.Case], c.Method, 60*time.Second, time.Duration(c.SlowMs)*time.Millisecond)
 		}(i, c)
 	}
 	wg.Wait()
